@@ -419,6 +419,33 @@ def rule_edit_row_range(ctx: Ctx, clause: str = "C09.10") -> RuleResult:
     return rr
 
 
+def rule_hidden_columns(ctx: Ctx) -> RuleResult:
+    """Columns hides a column whose width is 0 *together with its divider*.  render() positions the visible columns
+    that way; every other function that adds up column widths plus dividechars to find where a column is
+    (get_cursor_coords, move_cursor_to_coords, mouse_event, get_pref_col ...) has to skip non-positive widths too, or
+    every click / cursor position right of a hidden column is off by the divider width."""
+    p = ctx.p
+    rr = RuleResult("SIB", "C09.12", "every Columns function that adds up widths and dividers skips hidden (width <= 0) columns, as render() does", floor=3)
+    C = p.cls("urwid.widget.columns.Columns")
+    for fi in C.methods.values():
+        src = ast.unparse(fi.node)
+        if "dividechars" not in src or fi.name in ("__init__", "column_widths", "get_column_sizes", "_get_fixed_column_sizes", "_get_flow_column_sizes", "_get_fixed_rendered_size", "rows", "pack") or fi.name.startswith("_"):
+            continue
+        # loops / comprehensions whose element is a width and whose body adds dividechars
+        sites = []
+        for n in fi.own_nodes():
+            if isinstance(n, ast.For) and "dividechars" in ast.unparse(n) and "widths" in ast.unparse(n.iter):
+                sites.append(("loop", n))
+            elif isinstance(n, (ast.GeneratorExp, ast.ListComp)) and "dividechars" in ast.unparse(n.elt) and any("widths" in ast.unparse(g.iter) for g in n.generators):
+                sites.append(("comprehension", n))
+        for kind, n in sites:
+            has = any(isinstance(c, ast.Compare) and len(c.ops) == 1 and isinstance(c.comparators[0], ast.Constant) and c.comparators[0].value == 0 and isinstance(c.ops[0], (ast.LtE, ast.Gt, ast.Lt, ast.GtE, ast.Eq, ast.NotEq)) for c in ast.walk(n)) or any(isinstance(t, ast.UnaryOp) and isinstance(t.op, ast.Not) for g in getattr(n, "generators", []) for t in g.ifs)
+            rr.inst(f"{short(fi)}:{kind}", True, {"function": short(fi), "site": norm(n if kind != 'loop' else n.iter, 50), "skips_hidden": has})
+            if not has:
+                rr.add(finding("SIB", fi, n, f"{fi.name}() adds up column widths and dividers without skipping hidden (width <= 0) columns: render() leaves such a column out together with its divider, so everything right of it is {'hit-tested' if 'mouse' in fi.name or 'move' in fi.name else 'located'} dividechars columns too far right", construct=f"{fi.name}: hidden columns not skipped"))
+    return rr
+
+
 def run(ctx: Ctx):
     p = ctx.p
     return [
@@ -433,6 +460,7 @@ def run(ctx: Ctx):
         accum.run_accum(p, "C09.9", "C09", floor=3),
         rule_edit_row_range(ctx),
         optcall.run_optcall(p, "C09.11", ("urwid.widget",), floor=35),
+        rule_hidden_columns(ctx),
     ]
 
 
@@ -444,6 +472,8 @@ _PIL = "urwid/widget/pile.py"
 _COL = "urwid/widget/columns.py"
 _BOX = "urwid/widget/box_adapter.py"
 MUTANTS = [
+    Mut("columns-click-counts-hidden-divider", "urwid/widget/columns.py", "Columns.mouse_event", "            if width <= 0:\n                # hidden column: not drawn, takes no divider (see render)\n                continue\n            if col < x:", "            if col < x:", "SIB|widget.columns.Columns.mouse_event"),
+    Mut("columns-move-counts-hidden-divider", "urwid/widget/columns.py", "Columns.move_cursor_to_coords", "            if width <= 0:\n                # hidden column: not drawn, takes no divider (see render)\n                continue\n            end = x + width", "            end = x + width", "SIB|widget.columns.Columns.move_cursor_to_coords"),
     Mut("edit-accepts-caption-rows", "urwid/widget/edit.py", "Edit.move_cursor_to_coords", "        _top_x, top_y = self.position_coords(maxcol, 0)\n        if y < top_y or y >= len(trans):", "        if not 0 <= y < len(trans):", "KIND|widget.edit.Edit.move_cursor_to_coords"),
     Mut("popup-cursor-forwarded-blindly", "urwid/widget/popup.py", "PopUpTarget.get_cursor_coords", "        if not hasattr(self._current_widget, \"get_cursor_coords\"):\n            return None\n", "", "OPTCALL|widget.popup.PopUpTarget.get_cursor_coords"),
     Mut("popup-move-forwarded-blindly", "urwid/widget/popup.py", "PopUpTarget.move_cursor_to_coords", "        if not hasattr(self._current_widget, \"move_cursor_to_coords\"):\n            return True\n", "", "OPTCALL|widget.popup.PopUpTarget.move_cursor_to_coords"),
